@@ -186,7 +186,7 @@ pub fn exercise_archive(ctx: &mut Ctx, bytes: &[u8], label: &str, class: &str) {
         }
     }
     // --- async twins (sampled: they share the templates with the sync code)
-    if hash_bytes(bytes) % 3 == 0 {
+    if hash_bytes(bytes) % 3 == 0 || class == "metadata-bomb" || class == "declared-content-size" || class == "tiny-metadata" {
         let mut rd = AInst::new(bytes.to_vec());
         rd.c.op_budget = Some(op_budget(bytes.len()) + 64 * est.plain_bytes);
         rd.pend = Pend::Alternate;
